@@ -259,3 +259,34 @@ func GenHostile(t *Tape) *Scenario {
 	g.Sc.Sched.MaxSimSec = 6 * 3600
 	return g.Sc
 }
+
+// HostilePDFNestedDicts is the pinned scenario of a recorded finding: a small PDF whose content object opens
+// several hundred dictionaries and closes none. pdfcpu v0.9.1 parses every nested dictionary twice (relaxed,
+// then strict) when the first attempt fails, so the work doubles per level and the postprocessor worker that
+// calls extractor.PDF never comes back.
+func HostilePDFNestedDicts() *Scenario {
+	g := NewGen(NewTape(10), "hostile-pdf-nested-dicts", "C10")
+	c := &crawlGen{Gen: g, o: CrawlOpts{Prop: "C10"}}
+	cfg := &g.Sc.Cfg
+	cfg.Workers, cfg.MaxConcurrentAssets, cfg.MaxRedirect, cfg.PoolSize = 2, 1, 1, 1
+	cfg.MaxHops = 1 // links in a PDF are outlinks: the extractor runs only when hops are allowed
+	cfg.DiscardStatus = []int{429}
+	pdf := BuildPDF([]string{"http://10.3.3.3/from-pdf"})
+	marker := []byte("4 0 obj\n")
+	if i := bytes.Index(pdf, marker); i >= 0 {
+		var nb bytes.Buffer
+		nb.Write(pdf[:i+len(marker)])
+		nb.WriteString(strings.Repeat("<< /Le", 600))
+		nb.Write(pdf[i+len(marker):])
+		pdf = nb.Bytes()
+	}
+	host := c.Host()
+	r := c.res(host, "/h/nested.pdf", "", 0, May, Response{Status: 200, Headers: [][2]string{{"Content-Type", "application/pdf"}}, Body: Raw(pdf)})
+	r.Tags["hostile"] = "pdf"
+	g.Sc.Queue = append(g.Sc.Queue, c.row(URL(host, "/h/nested.pdf")))
+	g.Sc.StopAtIdle = true
+	g.Sc.Sched.MaxSteps = 80000
+	g.Sc.Sched.MaxSimSec = 6 * 3600
+	g.Sc.Extra = map[string]string{"wall_limit_s": "25"}
+	return g.Sc
+}
